@@ -78,6 +78,12 @@ def audit(ctx, vfile, module):
     ctx.discharged = len([n for n in names if n in ax and n not in bad])
     if bad:
         ctx.broken = ("unlisted axiom", json.dumps(bad))
+    if ctx.thorough() and ctx.broken is None:
+        ok, summ, tail = coqaudit.coqchk(module)
+        ctx.coqchk = summ
+        allow_ax = summ.get("axioms") == "<none>" or all(a.strip() in allow for a in summ.get("axioms", "").split())
+        if not ok and not (allow_ax and all(summ[k] == "<none>" for k in ("type_in_type", "unsafe_fix", "positivity_assumed"))):
+            ctx.broken = ("coqchk", json.dumps(summ) + " :: " + tail[-300:])
     return names
 
 def finish(ctx, spec, binfo):
@@ -87,6 +93,7 @@ def finish(ctx, spec, binfo):
         "checker_cmd": "make -C coq -j16 %s && coqc Print Assumptions audit (tools/vlib/coqaudit.py)" % spec["target"],
         "trusted_base": TRUSTED + spec.get("trusted_extra", []),
         "theorems": {n: ("closed under the global context" if not a else a) for n, a in ctx.axioms.items()},
+        "coqchk": getattr(ctx, "coqchk", "not run in this tier (thorough tier re-checks the compiled theory with coqchk -o)"),
         "evaluations": ctx.evaluations, "distinct_nontrivial": len(ctx.nontrivial),
         "rule": spec.get("rule", ""), "samples": ctx.samples or ["(none)"],
         "traces_validated_against_impl": ctx.traces, "disagreements_checked": ctx.disagreements_checked,
